@@ -218,7 +218,7 @@ def isWordChar (c : Char) : Bool := isAsciiAlpha c || isAsciiDigit c || c == '_'
 
 /-- `_escape_non_alphanumeric` on one character -/
 def escapeChar (c : Char) : List Char :=
-  if isWordChar c then [c] else "__".toList ++ (toString c.toNat).toList ++ "__".toList
+  if isWordChar c then [c] else ['_', '_'] ++ (toString c.toNat).toList ++ ['_', '_']
 
 def escapeChars : List Char → List Char
   | [] => []
